@@ -130,6 +130,15 @@ class Check(object):
             if rejs:
                 index = _load_index(s['index'])
                 seen = set()
+                want_lines = set(line for _, line, _ in rejs)
+                ev_at = {}
+                with open(s['events']) as fh:
+                    for no, ln in enumerate(fh, 1):
+                        if no in want_lines:
+                            try:
+                                ev_at[no] = json.loads(ln)
+                            except ValueError:
+                                pass
                 for tid, line, clauses in rejs:
                     for c in clauses:
                         if c.startswith('M'):
@@ -140,8 +149,19 @@ class Check(object):
                         if (tid, c) in seen:
                             continue
                         seen.add((tid, c))
+                        meta = dict(index.get(tid, {}))
+                        evt = ev_at.get(line, {})
+                        # a micro-trace may span several modules (doctest examples): the failing event names its own
+                        if isinstance(evt.get('m'), str) and evt.get('m') and meta.get('how') == 'doctest example':
+                            meta['m'] = evt['m']
+                            r = evt.get('r') or {}
+                            if r.get('k') == 'ret' and r.get('t') == 'str':
+                                meta['ret'] = ''.join(chr(c) for c in r.get('v', []))[:80]
+                            if evt.get('a') == 'is_valid':
+                                # V3 concerns the validate result remembered by the session: look it up in the micro-trace
+                                meta['ret'] = meta.get('ret', '')
                         rejections.append({'clause': c, 'tid': tid, 'line': line, 'shard': s['events'],
-                                           'meta': index.get(tid, {})})
+                                           'meta': meta})
         self.cov['traces_validated_against_impl'] += n_traces
         self.cov['evaluations'] += n_events
         self.cov['stages'].append({'stage': 'TRACE', 'spec': trace_module, 'events': n_events,
